@@ -91,7 +91,7 @@ int main(void) {
     /* ---- program ---- */
     const char* id = tok[1]; size_t rn; uint8_t* rule = unhex(tok[2], &rn);
     TextSpec ts; memset(&ts, 0, sizeof ts); RNode* ast = NULL; int istext = tok[0][0] == 'T';
-    int o_string = 1, o_matches = 0, o_full = 0, o_ascii = 0, o_wide = 0;
+    int o_string = 1, o_matches = 0, o_full = 0, o_ascii = 0, o_wide = 0, o_lazy = 0;
     if (istext) {
       size_t sn; uint8_t* s = unhex(tok[3], &sn); memcpy(ts.s, s, sn); ts.len = (int) sn; free(s);
       for (const char* f = tok[4]; *f; f++) { if (*f == 'a') ts.ascii = 1; if (*f == 'w') ts.wide = 1; if (*f == 'n') ts.nocase = 1; if (*f == 'f') ts.fullword = 1; if (*f == 'x') ts.is_xor = 1; }
@@ -104,7 +104,7 @@ int main(void) {
       text_prepare(&ts);
     } else {
       o_string = 0;
-      for (const char* f = tok[3]; *f; f++) { if (*f == 's') o_string = 1; if (*f == 'm') o_matches = 1; if (*f == 'f') o_full = 1; if (*f == 'a') o_ascii = 1; if (*f == 'w') o_wide = 1; }
+      for (const char* f = tok[3]; *f; f++) { if (*f == 's') o_string = 1; if (*f == 'm') o_matches = 1; if (*f == 'f') o_full = 1; if (*f == 'a') o_ascii = 1; if (*f == 'w') o_wide = 1; if (*f == 'l') o_lazy = 1; }
       if (!o_wide) o_ascii = 1;
       char* q = rest; ast = rparse(&q);
     }
@@ -132,16 +132,16 @@ int main(void) {
       const char* what = NULL; char exp[700]; exp[0] = 0;
       if (rc != ERROR_SUCCESS) { what = "scan-error"; snprintf(exp, sizeof exp, "{\"rc\":%d}", rc); }
       else if (o_matches) {
-        RCtx cx = { b, n, 0 }; int any = 0;
-        for (int o = 0; o <= n && !any; o++) if (rmatch(ast, BIT(o), &cx)) any = 1;
+        RCtx cx = { b, n, 0 }; int any = 0, anybefore = 0;
+        for (int o = 0; o <= n && !any; o++) if (rmatch(ast, BIT(o), &cx)) { any = 1; if (o < n) anybefore = 1; }
         if (any) nontriv++;
-        if (verdict1 != any) { what = "matches-operator"; snprintf(exp, sizeof exp, "{\"matches\":%d}", any); }
+        if (verdict1 != any) { what = (any && !anybefore && !verdict1) ? "matches-operator-empty-match-at-end-of-operand" : "matches-operator"; snprintf(exp, sizeof exp, "{\"matches\":%d}", any); }
       } else {
         /* expected offsets and admissible lengths */
         int gi = 0; long prev = -1; int anyexp = 0;
         for (int o = 0; o < n && !what; o++) {
           Adm ad; PS la = 0, lw = 0;
-          int expd;
+          int expd, prefok = 1;
           if (istext) { text_admissible(&ts, b, n, o, &ad); expd = ad.n > 0; }
           else {
             if (o_ascii) { RCtx cx = { b, n, 0 }; la = rmatch(ast, BIT(o), &cx); }
@@ -152,6 +152,9 @@ int main(void) {
                 if ((la & BIT(e)) && !(o > 0 && isalnum(b[o - 1])) && !(e < n && isalnum(b[e]))) fa |= BIT(e);
                 if ((lw & BIT(e)) && !(o >= 2 && b[o - 1] == 0 && isalnum(b[o - 2])) && !(e + 1 < n && isalnum(b[e]) && b[e + 1] == 0)) fw |= BIT(e);
               }
+              /* a backtracking-free engine tests the word delimiters on ONE length of its choosing (leftmost-first / longest / shortest):
+                 if some length the expression can match here (the empty one included) is not a full word, a miss is classified apart */
+              { PS raw = (la | lw) >> o, pass = (fa | fw) >> o; (void) o_lazy; prefok = (raw & ~pass) == 0; }
               la = fa | (la & BIT(o)); lw = fw | (lw & BIT(o));
             }
             expd = ((la | lw) >> (o + 1)) != 0;
@@ -159,7 +162,7 @@ int main(void) {
           int rep = gi < ngot && got[gi].off == o;
           if (expd) anyexp = 1;
           if (rep && got[gi].off <= prev) { what = "order-or-duplicate"; break; }
-          if (expd && !rep) { what = "missed"; snprintf(exp, sizeof exp, "{\"offset\":%d}", o); break; }
+          if (expd && !rep) { what = (o_full && !prefok) ? "missed-fullword-where-another-length-is-no-full-word" : "missed"; snprintf(exp, sizeof exp, "{\"offset\":%d}", o); break; }
           if (!expd && rep) { what = (got[gi].len == 0) ? "zero-length-match-reported" : "extra"; snprintf(exp, sizeof exp, "{\"offset\":%d,\"none\":1}", o); break; }
           if (rep) {
             int okl = 0;
